@@ -102,12 +102,17 @@ def run(ctx):
         nt = bool(fp)
         ctx.case(sample=dict(func='find_neighbor_pairs', seqs=ss, hamming=ham, pairs=fp[:5]) if nt and n % 25 == 0 else None,
                  nontrivial_key=('util', al, tuple(ss), ham, x) if nt else None)
-        g = call_impl(lambda: ds.find_neighbor_pairs(ss, neighborhood=nbf))
+        # repeated sequences in the input must not repeat a pair (the statement: each unordered pair of DISTINCT sequences once)
+        ss_fp = ss + [rng.choice(ss) for _ in range(rng.randint(1, 3))] if ss and n % 3 == 0 else ss
+        if ss_fp is not ss:
+            rng.shuffle(ss_fp)
+            ctx.count('find_pairs_input_with_repeats')
+        g = call_impl(lambda: ds.find_neighbor_pairs(ss_fp, neighborhood=nbf))
         # each unordered pair once: compare as a set of frozensets plus multiplicity
         ok = g[0] == 'ok' and sorted(tuple(sorted(p)) for p in g[1]) == sorted(tuple(sorted(p)) for p in fp)
         if not ok:
-            ctx.violation('property', 'find_neighbor_pairs(%s) = %s, expected each unordered distance-1 pair once: %s' % (ss, str(g)[:200], fp),
-                          dict(func='find_neighbor_pairs', seqs=ss, hamming=ham, alphabet=al), site='distance.find_neighbor_pairs')
+            ctx.violation('property', 'find_neighbor_pairs(%s) = %s, expected each unordered distance-1 pair once: %s' % (ss_fp, str(g)[:200], fp),
+                          dict(func='find_neighbor_pairs', seqs=ss_fp, hamming=ham, alphabet=al), site='distance.find_neighbor_pairs')
         g = call_impl(lambda: ds.find_neighbor_pairs_index(ss, neighborhood=nbf))
         exp_idx = sorted((i, j) for i in range(len(ss)) for j in range(len(ss))
                          if tuple(sorted((ss[i], ss[j]))) in {tuple(sorted(p)) for p in fp} and ss[i] != ss[j])
